@@ -84,6 +84,30 @@ def pattern_for(k):
     return None
 
 
+OVR_VALUES = {"pre_call": ["int ovr_pre = 1;"], "call": ["ovr_call();"], "post_call": ["int ovr_post = 2;"],
+              "ret": ["return 0;"], "return_type": "long"}
+
+
+def fstatements_lines(r, spec):
+    """a declaration-level `fstatements: {c: {...}}` dictionary naming a random subset of clauses"""
+    named = [c for c in sorted(OVR_VALUES) if r.random() < 0.4]
+    mode = r.choice(["update", "update", "update", None, "replace"])
+    out = ["fstatements:", "  c:"]
+    if mode:
+        out.append("    mode: %s" % mode)
+    for c in named:
+        v = OVR_VALUES[c]
+        if isinstance(v, list):
+            out.append("    %s:" % c)
+            out += ["    - %s" % l for l in v]
+        else:
+            out.append("    %s: %s" % (c, v))
+    if len(out) == 2:
+        out[1] = "  c: {}"
+    spec.kind("fstatements:%s:%d" % (mode or "default", len(named)))
+    return out, named, mode
+
+
 def gen_function(r, spec, i, language, ind="", method=False):
     k, (rt, attr) = result_kind(r, spec, language)
     params = [c_param(r, j, spec) for j in range(r.choice([0, 1, 1, 2, 3, 4]))]
@@ -101,11 +125,17 @@ def gen_function(r, spec, i, language, ind="", method=False):
     if r.random() < 0.2:
         extra += ["options:", "  C_force_wrapper: true"]
         spec.kind("force_wrapper")
+    if getattr(spec, "with_fstatements", False) and r.random() < 0.5:
+        lines, named, mode = fstatements_lines(r, spec)
+        extra += lines
+        spec.overrides[name] = (named, mode)
     spec.decls.append((ind, text, extra))
 
 
-def gen_spec(r, name, language):
+def gen_spec(r, name, language, fstatements=False):
     spec = Spec(name, language)
+    spec.with_fstatements = fstatements
+    spec.overrides = {}
     spec.decls.append(("", "enum Color { RED, GREEN, BLUE }", []))
     spec.decls.append(("", "struct Pt { int x; double y; }", []))
     for i in range(r.randrange(5, 10)):
